@@ -9,7 +9,7 @@ BOUNDS = dict(quick='n <= 7 points, x_0<...<x_{n-1} and t>0 all symbolic reals (
                        'monotonicity in t for single/complete: two symbolic thresholds t<t2 in one path, n <= 7')
 ASSUMPTIONS = ['exact real arithmetic (T1)', 'x strictly increasing, t > 0 (the property\'s precondition)']
 LINKS = ['single_linkage', 'complete_linkage', 'centroid_linkage', 'average_linkage']
-CONFIG = dict(quick=dict(budget_s=120), thorough=dict(budget_s=1500))
+CONFIG = dict(quick=dict(budget_s=120), thorough=dict(budget_s=900))
 
 
 def cases(tier, seed):
